@@ -47,6 +47,7 @@ type c09Worker struct {
 }
 
 var c09W *c09Worker
+var c09Slow bool
 
 func c09Key() []byte { return []byte("0123456789abcdef") }
 
@@ -72,6 +73,9 @@ func c09NewWorker() (*c09Worker, error) {
 		c.MemberlistConfig.GossipInterval = 100 * time.Millisecond // nothing to gossip to; fewer timer wake-ups
 		c.MemberlistConfig.ProbeInterval = time.Second
 		c.QueryTimeoutMult = 2          // queries stay open for 200 ms
+		if c09Slow {
+			c.QueryTimeoutMult = 100
+		}
 		c.MemberlistConfig.BindPort = 0 // any free port: workers of parallel runs share the loopback addresses
 		w.evCh = make(chan serf.Event, 1<<14)
 		c.EventCh = w.evCh
@@ -334,6 +338,13 @@ func (w *c09Worker) probe(d time.Duration) bool {
 func c09WorkerExec(ops []string) []string {
 	outs := make([]string, 0, len(ops))
 	for _, o := range ops {
+		if o == "inj slowquery" {
+			// before the node exists: queries stay open for 10 s, so that a loaded machine cannot make the
+			// harness miss the reply window of the name-conflict vote
+			c09Slow = c09W == nil
+			outs = append(outs, "ok")
+			continue
+		}
 		if c09W == nil {
 			w, err := c09NewWorker()
 			for try := 0; err != nil && try < 20; try++ {
